@@ -16,18 +16,6 @@ Section Compact.
   Definition compacted : rules := set_nth last4 (Some comb) blanked.
 
   Hypothesis Hn : forall k, (k < 4)%nat -> nth_error rs (idx k) = Some (Some (rk k)).
-  Hypothesis Himp : forall k, (k < 4)%nat -> b_imp (rk k) = imp0.
-  Hypothesis Himpc : b_imp comb = imp0.
-  Hypothesis Hoth : forall k, (k < 4)%nat -> is_other (rk k) = false.
-  Hypothesis Hothc : is_other comb = false.
-  Hypothesis Hhi : forall e k s, (k < 4)%nat -> (4 <= s)%nat -> sets e aa (rk k) s = None.
-  Hypothesis Hhic : forall e s, (4 <= s)%nat -> sets e aa comb s = None.
-  Hypothesis Hafter : forall k j r', (k < 4)%nat -> (idx k < j)%nat ->
-    nth_error rs j = Some (Some r') -> affects r' k = false.
-  Hypothesis Hsem : forall e,
-    (forall k, (k < 4)%nat -> exists v, sets e aa (rk k) k = Some v /\ sets e aa comb k = Some v) \/
-    ((forall k s, (k < 4)%nat -> sets e aa (rk k) s = None) /\ forall s, sets e aa comb s = None).
-
   Lemma eff_none e imp s d : sets e aa d s = None -> eff e aa imp s d = None.
   Proof. intros H. unfold eff. rewrite H. destruct (Bool.eqb (b_imp d) imp); reflexivity. Qed.
 
@@ -80,6 +68,19 @@ Section Compact.
     apply Nat.ltb_lt in L. rewrite L, andb_true_r.
     destruct (Nat.eqb j last4); [reflexivity | apply nth_blanked].
   Qed.
+
+  Hypothesis Himp : forall k, (k < 4)%nat -> b_imp (rk k) = imp0.
+  Hypothesis Himpc : b_imp comb = imp0.
+  Hypothesis Hoth : forall k, (k < 4)%nat -> is_other (rk k) = false.
+  Hypothesis Hothc : is_other comb = false.
+  Hypothesis Hhi : forall e k s, (k < 4)%nat -> (4 <= s)%nat -> sets e aa (rk k) s = None.
+  Hypothesis Hhic : forall e s, (4 <= s)%nat -> sets e aa comb s = None.
+  Hypothesis Hafter : forall k j r', (k < 4)%nat -> (idx k < j)%nat ->
+    nth_error rs j = Some (Some r') -> affects r' k = false.
+  Hypothesis Hsem : forall e,
+    (forall k, (k < 4)%nat -> exists v, sets e aa (rk k) k = Some v /\ sets e aa comb k = Some v) \/
+    ((forall k s, (k < 4)%nat -> sets e aa (rk k) s = None) /\ forall s, sets e aa comb s = None).
+
 
   Theorem compact_preserves : sem_eq aa rs compacted.
   Proof.
